@@ -9,6 +9,30 @@ REPO = os.environ.get('MV_REPO', '/repo')
 _cache = {}
 
 
+_copy = [None]
+
+
+def _private_copy():
+    """A per-process copy of the witness crate that depends on the tree under analysis (MV_REPO, default /repo) with that tree's
+    Cargo.lock: parallel checks do not write into one another's manifest, and scratch variants (E6) are type-checked themselves."""
+    if _copy[0] is not None:
+        return _copy[0]
+    import atexit, tempfile
+    base = os.path.join(V, '.work')
+    os.makedirs(base, exist_ok=True)
+    d = tempfile.mkdtemp(prefix='witness-', dir=base)
+    shutil.copytree(os.path.join(WDIR, 'src'), os.path.join(d, 'src'))
+    with open(os.path.join(WDIR, 'Cargo.toml')) as f:
+        toml = f.read()
+    toml = toml.replace('path = "/repo"', 'path = "%s"' % os.path.abspath(REPO))
+    with open(os.path.join(d, 'Cargo.toml'), 'w') as f:
+        f.write(toml)
+    shutil.copyfile(os.path.join(REPO, 'Cargo.lock'), os.path.join(d, 'Cargo.lock'))
+    atexit.register(lambda: shutil.rmtree(d, ignore_errors=True))
+    _copy[0] = d
+    return d
+
+
 def check_bin(name):
     """-> {'ok': bool, 'errors': [{'code','message','file','line'}]}"""
     if name in _cache:
@@ -16,9 +40,9 @@ def check_bin(name):
     src = os.path.join(WDIR, 'src', 'bin', name + '.rs')
     if not os.path.exists(src):
         raise AnalysisIncomplete('witness %s missing' % name, name)
-    shutil.copyfile(os.path.join(REPO, 'Cargo.lock'), os.path.join(WDIR, 'Cargo.lock'))
+    wdir = _private_copy()
     env = dict(os.environ, CARGO_NET_OFFLINE='true', CARGO_TARGET_DIR=os.path.join(V, '.work', 'target-witness'), CARGO_INCREMENTAL='0')
-    p = subprocess.run(['cargo', '+nightly', 'check', '--offline', '--bin', name, '--message-format=json'], cwd=WDIR, env=env, capture_output=True, text=True)
+    p = subprocess.run(['cargo', '+nightly', 'check', '--offline', '--bin', name, '--message-format=json'], cwd=wdir, env=env, capture_output=True, text=True)
     errors = []
     dep_errors = []
     for line in p.stdout.splitlines():
